@@ -9,6 +9,7 @@ MsgsTiny == {
     Remote("10.0.2.0/26", B2, "vxlan", "n2", Ip2, FALSE),
     Remote("10.0.2.0/26", B2, "vxlan", "n2", Ip2, TRUE),
     Remote("10.0.2.0/26", B2, "none", "n2", Ip2, FALSE),
+    M("10.0.2.0/26", R(B2, FALSE, TRUE, FALSE, "vxlan", "n1", "172.0.0.2", TRUE, FALSE, FALSE)),
     M("10.0.1.0/26", R(LB, FALSE, TRUE, FALSE, "vxlan", "n1", "172.0.0.2", TRUE, FALSE, FALSE)),
     M("10.0.1.7/32", R(W1, FALSE, TRUE, FALSE, "vxlan", "n1", "172.0.0.2", TRUE, TRUE, FALSE)) }
 VtepTiny == [n1 |-> {"10.0.1.1"}, n2 |-> {"10.0.2.1"}, n3 |-> {}]
